@@ -44,6 +44,8 @@ void cv_coarse_boundary_sample(CellVec *c, int res, int n);  /* n random cells o
 void cv_face_centre_cells(CellVec *c, int res, int ndir); /* cells on and 1e-9..1e-2 rad around the 20 icosahedron face centres (ndir directions per distance) */
 int vt_face_centres(LatLng out[20]);                       /* the 20 face centres, from the public res-0 pentagon centres */
 void cv_basecell_vertex_cells(CellVec *c, int res, int n); /* cells at n random corners of res-0 cells (farthest from their base cell's centre) and a neighbour of each */
+void cv_pentagon_edge_band(CellVec *c, int res, int stride, int phase, int nt); /* cells hugging the 5 icosahedron edges at every stride-th pentagon, nt positions inside its base cell */
+void cv_pentagon_edge_strip(CellVec *c, int res, int stride, int phase); /* every cell within 2.5 cell widths of the 5 icosahedron edges at a pentagon, out to 0.16 of the edge (de-duplicated) */
 void cv_polar_cells(CellVec *c, int res);               /* the cells containing the poles and their neighbours */
 void cv_antimeridian_cells(CellVec *c, int res, int n); /* cells on lng = +-pi at n latitudes, with neighbours */
 void cv_icosa_band_cells(CellVec *c, int res, int nT);  /* cells 1e-9..3e-3 rad either side of the 30 icosahedron edges (midpoints, ends, random) */
